@@ -7,6 +7,9 @@ const fn trailing_ones_large(words: &[Word]) -> usize
         ret <= words@.len() * WORD_BITS_USIZE,
         forall|i: int| 0 <= i < ret ==> bit_at(words@, i),
         ret < words@.len() * WORD_BITS_USIZE ==> !bit_at(words@, ret as int),
+        // the same in numbers
+        forall|i: int| 0 <= i < ret ==> (val(words@) / pow2(i)) % 2 == 1,
+        ret < words@.len() * WORD_BITS_USIZE ==> (val(words@) / pow2(ret as int)) % 2 != 1,
 @*/
 {
     let mut one_words = 0;
@@ -26,11 +29,20 @@ const fn trailing_ones_large(words: &[Word]) -> usize
         one_words += 1;
     }
     if one_words == words.len() {
-        /*@ proof { lemma_bits_all_ones(words@, one_words as int); } @*/
+        /*@ proof {
+            lemma_bits_all_ones(words@, one_words as int);
+            let r = one_words as int * WORD_BITS_USIZE as int;
+            assert forall|i: int| 0 <= i < r implies (val(words@) / pow2(i)) % 2 == 1 by { lemma_bits_bit_at_val(words@, i); }
+        } @*/
         return one_words * WORD_BITS_USIZE;
     }
 
     let one_bits = words[one_words].trailing_ones() as usize;
-    /*@ proof { lemma_bits_first_clear(words@, one_words as int, one_bits as u32); } @*/
+    /*@ proof {
+        lemma_bits_first_clear(words@, one_words as int, one_bits as u32);
+        let r = one_words as int * WORD_BITS_USIZE as int + one_bits as int;
+        lemma_bits_bit_at_val(words@, r);
+        assert forall|i: int| 0 <= i < r implies (val(words@) / pow2(i)) % 2 == 1 by { lemma_bits_bit_at_val(words@, i); }
+    } @*/
     one_words * WORD_BITS_USIZE + one_bits
 }
